@@ -194,7 +194,11 @@ pub fn norm_msg(m: &str) -> String {
 		})
 		.collect();
 	let mut s = words.join(" ");
-	s.truncate(120);
+	let mut n = std::cmp::min(120, s.len());
+	while !s.is_char_boundary(n) {
+		n -= 1;
+	}
+	s.truncate(n);
 	s
 }
 
@@ -343,7 +347,10 @@ pub fn run_part<P: Prop>(p: &mut P, args: &Args, rep: &mut Report) {
 	let shrink_iters = p.shrink_iters();
 	let pcell = RefCell::new(p);
 	let mut i = args.shard;
+	// a case (including its shrinking) that makes no progress for this long is a hang: exit 2 (inconclusive)
+	let wd = Watchdog::start(900, format!("{} part {}", id, part));
 	while i < total {
+		wd.tick();
 		let s32 = seed32(args.seed, id, &part, args.tier, i);
 		let rng = TestRng::from_seed(RngAlgorithm::ChaCha, &s32);
 		let cfg = Config {
@@ -505,23 +512,34 @@ impl Timer {
 /// Watchdog: if `tick` is not called for `limit_s` seconds, exit(2) (inconclusive).
 pub struct Watchdog {
 	last: std::sync::Arc<AtomicU64>,
+	alive: std::sync::Arc<AtomicU64>,
 }
 impl Watchdog {
 	pub fn start(limit_s: u64, what: String) -> Watchdog {
 		let last = std::sync::Arc::new(AtomicU64::new(now_s()));
+		let alive = std::sync::Arc::new(AtomicU64::new(1));
 		let l2 = last.clone();
+		let a2 = alive.clone();
 		std::thread::spawn(move || loop {
 			std::thread::sleep(std::time::Duration::from_secs(1));
+			if a2.load(Ordering::Relaxed) == 0 {
+				return;
+			}
 			let l = l2.load(Ordering::Relaxed);
 			if now_s().saturating_sub(l) > limit_s {
 				eprintln!("WATCHDOG: no progress for {}s in {} -> inconclusive (exit 2)", limit_s, what);
 				std::process::exit(2);
 			}
 		});
-		Watchdog { last }
+		Watchdog { last, alive }
 	}
 	pub fn tick(&self) {
 		self.last.store(now_s(), Ordering::Relaxed);
+	}
+}
+impl Drop for Watchdog {
+	fn drop(&mut self) {
+		self.alive.store(0, Ordering::Relaxed);
 	}
 }
 fn now_s() -> u64 {
